@@ -729,6 +729,34 @@ def octet_value_blind(P, R, fns, rule='C13.GRD.2'):
     R.floor(rule, 6, 'failure returns of the address parsers')
 
 
+def accumulators_bounded(P, R, fns, rule='C13.ARITH.2'):
+    """"Every other string is rejected": a number built up digit by digit (`v = v * 10 + d`) is compared with its limit
+    INSIDE the loop that builds it.  Checked only after the loop, a prefix length such as 4294967297 has wrapped around
+    to 1 by then and passes; inside the loop the value never exceeds ten times the limit."""
+    n = 0
+    for f in fns:
+        for t in f.stores():
+            if not (t.ev['k'] == 'store' and is_var(t.ev.get('lhs'))):
+                continue
+            v = t.ev['lhs']['name']
+            rhs = t.ev.get('rhs')
+            if not (isinstance(rhs, dict) and any(isinstance(x, dict) and x.get('k') == 'bin' and x.get('op') == '*' and const_of(x.get('r')) == 10 and is_var(x.get('l'), v) for x in walk(rhs))):
+                continue
+            loop = {b for b in f.reach([e.dst for e in f.out[t.bid]]) if t.bid in f.reach([e.dst for e in f.out[b]])} | {t.bid}
+            if t.bid not in f.reach([e.dst for e in f.out[t.bid]]):
+                continue        # not in a loop: a single digit
+            bounded = False
+            for b in loop:
+                for e in f.out[b]:
+                    r = e.rel() if e.cond is not None and e.label not in ('case', 'default') else None
+                    if r and is_var(r[0], v) and isinstance(const_of(r[2]), int) and r[1] in ('>', '>=', '<', '<='):
+                        # the limit test belongs to this accumulation if no other loop step lies between: same innermost cycle
+                        bounded = True
+            n += 1
+            R.ob(rule, bounded, t, 'in %s the number accumulated in %s is compared with its limit inside the loop that builds it' % (f.name, v), key='accumulator-bounded:%s:%s' % (f.name, v))
+    R.floor(rule, 2, 'decimal accumulations in the address parsers')
+
+
 def run(P, R, tier):
     fns = scope(P)
     if len(fns) < 3:
@@ -741,6 +769,7 @@ def run(P, R, tier):
     prefix_offsets(P, R)
     prefix_width(P, R)
     mask_walk_from_start(P, R)
+    accumulators_bounded(P, R, list(fns) if not isinstance(fns, dict) else list(fns.values()))
     octet_value_blind(P, R, list(fns) if not isinstance(fns, dict) else list(fns.values()))
     hex_table(P, R)
     full_range(P, R, fns)
